@@ -618,12 +618,13 @@ class Engine(object):
             return
         self.nmsg += 1
         tag = 'm%d' % self.nmsg
-        n = max(1, min(4, int(spec.get('n', 1))))
+        n = max(1, min(8 if spec.get('many') else 4, int(spec.get('n', 1))))
         rcpts = ['r%d@%s.example' % (i, tag) for i in range(n)]
         sender = 's@%s.example' % tag if spec.get('sender', True) else ''
         env = Envelope(sender, list(rcpts))
         body = bytes.fromhex(spec['body']) if spec.get('body') else b'body of %s\r\n' % tag.encode()
-        env.parse(b'From: ' + (sender or '<>').encode() + b'\r\nX-Tag: ' + tag.encode() + b'\r\nSubject: t\r\n\r\n' + body)
+        extra = bytes.fromhex(spec['block']) if spec.get('block') else b'Subject: t\r\n'
+        env.parse(b'From: ' + (sender or '<>').encode() + b'\r\nX-Tag: ' + tag.encode() + b'\r\n' + extra + b'\r\n' + body)
         env.receiver = 'verif'
         env.timestamp = CLOCK.now
         env.client = {'name': 'c', 'ip': '1.2.3.4'}
